@@ -1260,7 +1260,8 @@ func rulesC15(r *Run) {
 	}
 	r.Kind("R1", "K8")
 	ruleConstantPredicates(r, "R1", m)
-	r.Expect("R1", 7)
+	ruleExistsAnswer(r, "R1")
+	r.Expect("R1", 8)
 
 	r.Kind("R2", "K8+K2")
 	ruleSearchTemplates(r, "R2")
@@ -1271,7 +1272,8 @@ func rulesC15(r *Run) {
 		ruleStreamClosed(r, "R3", k)
 	}
 	ruleSubmitErrorHandled(r, "R3")
-	r.Expect("R3", 10)
+	rulePoolPairing(r, "R3")
+	r.Expect("R3", 20)
 
 	r.Kind("R4", "K8")
 	ruleListQuery(r, "R4", m)
@@ -1726,4 +1728,219 @@ func classifiedBetween(info *types.Info, p *Path, from, to int, errVar types.Obj
 		}
 	}
 	return false
+}
+
+// rulePoolPairing (second mutation sweep): the sqlite vault has ONE connection. Every function that takes it gives it back on
+// every exit — by a Put of that connection in place or deferred, or by handing it to a submitted producer whose literal
+// Puts it (Search/List). Per pool.Take call site of the package: on every returning path on which Take did not fail, a
+// Put of the taken connection follows (certain deferred calls count), or a Submit of a literal that Puts it. A single
+// leak — deleting the `defer pool.Put(conn)` of Exists passed every test — blocks every later call on the vault.
+func rulePoolPairing(r *Run, rule string) {
+	n := 0
+	for _, fn := range r.P.sortedFuncs() {
+		if relPkg(fn.Pkg.PkgPath) != pkgSqlite || fn.Decl.Body == nil {
+			continue
+		}
+		file := r.P.Fset.Position(fn.Decl.Pos()).Filename
+		if strings.HasSuffix(file, "_test.go") {
+			continue
+		}
+		info := fn.Pkg.TypesInfo
+		takes := false
+		ast.Inspect(fn.Decl.Body, func(x ast.Node) bool {
+			if c, ok := x.(*ast.CallExpr); ok {
+				if f, ok := calleeFunc(info, c); ok && strings.HasSuffix(FuncKey(f), "sqlitex.Pool.Take") {
+					takes = true
+				}
+			}
+			return !takes
+		})
+		if !takes {
+			continue
+		}
+		fl, paths, ok := r.flowPaths(rule, fn)
+		if !ok {
+			continue
+		}
+		paths = OwnOnly(paths)
+		bad := ""
+		var bpos token.Pos = fn.Decl.Pos()
+		seen := false
+		for i := range paths {
+			p := &paths[i]
+			if p.Exit != ExitReturn {
+				continue
+			}
+			for ci, e := range p.Ev {
+				if e.Kind != EvCall || e.Deferred || !strings.HasSuffix(CalleeKey(e), "sqlitex.Pool.Take") {
+					continue
+				}
+				seen = true
+				bpos = e.Pos
+				// the connection variable
+				var conn types.Object
+				for x := ci; x < len(p.Ev) && x <= ci+1; x++ {
+					if a := p.Ev[x]; a.Kind == EvAssign && len(a.Lhs) == 2 && len(a.Rhs) == 1 {
+						if c, ok := ast.Unparen(a.Rhs[0]).(*ast.CallExpr); ok && c == e.Call {
+							conn = ObjOf(info, a.Lhs[0])
+						}
+					}
+				}
+				if conn == nil {
+					continue
+				}
+				if UseOfResult(fl, p, ci).Verdict == "nonnil" {
+					continue // Take failed: there is nothing to give back
+				}
+				released := false
+				for x := ci + 1; x < len(p.Ev); x++ {
+					ev := p.Ev[x]
+					if ev.Kind == EvCall && !ev.Maybe && strings.HasSuffix(CalleeKey(ev), "sqlitex.Pool.Put") && ev.Call != nil && len(ev.Call.Args) == 1 && ObjOf(info, ev.Call.Args[0]) == conn {
+						released = true
+					}
+					if IsCall(ev, keySubmit) && ev.Call != nil {
+						if l := LitArg(ev.Call); l != nil {
+							ast.Inspect(l.Body, func(y ast.Node) bool {
+								if c, ok := y.(*ast.CallExpr); ok {
+									if sel, ok := ast.Unparen(c.Fun).(*ast.SelectorExpr); ok && sel.Sel.Name == "Put" && len(c.Args) == 1 && ObjOf(info, c.Args[0]) == conn {
+										released = true
+									}
+								}
+								return true
+							})
+						}
+					}
+				}
+				if !released && bad == "" {
+					bad = ShortFn(fn.Key) + " takes the vault's connection and returns without giving it back (exit guard " + ExitGuardKey(fl, p) + "): the pool has one connection, every later call on the vault blocks"
+				}
+			}
+		}
+		if !seen {
+			continue
+		}
+		n++
+		r.Check(rule, "connection-given-back:"+ShortFn(fn.Key), bpos, bad == "", "%s", orOK(bad, "Put on every exit after a successful Take"))
+	}
+	if n == 0 {
+		r.Unresolved(rule, "pool.Take call sites in package sqlite")
+	}
+}
+
+// ruleExistsAnswer (second mutation sweep): Exists answers true exactly when the row count of its `SELECT COUNT(*) … WHERE id = ?`
+// is positive. Decided on the paths of reader.Exists after canonicalisation (`return c > 0, nil` is `if c > 0 { return true,
+// nil }; return false, nil`): the variable assigned from stmt.ColumnInt(0) in the result function is the one tested,
+// `true` is returned only on a path that established count > 0 (or ≥ 1, ≠ 0 with the negative case refused before,
+// == 1), and no path that established that returns false. The comparison is over one integer: the set of accepted
+// spellings is finite.
+func ruleExistsAnswer(r *Run, rule string) {
+	fn := r.fnByKey(rule, sqlKey("reader.Exists"))
+	if fn == nil {
+		return
+	}
+	fl, paths, ok := r.flowPaths(rule, fn)
+	if !ok {
+		return
+	}
+	paths = OwnOnly(paths)
+	info := fl.Info
+	// the count variable: assigned from ColumnInt(0) (possibly inside the result function literal)
+	var count types.Object
+	ast.Inspect(fn.Decl.Body, func(x ast.Node) bool {
+		as, ok := x.(*ast.AssignStmt)
+		if !ok || len(as.Lhs) != 1 || len(as.Rhs) != 1 {
+			return true
+		}
+		if c, ok := ast.Unparen(as.Rhs[0]).(*ast.CallExpr); ok {
+			if sel, ok := ast.Unparen(c.Fun).(*ast.SelectorExpr); ok && (sel.Sel.Name == "ColumnInt" || sel.Sel.Name == "ColumnInt64") && len(c.Args) == 1 {
+				if k, isC := ConstInt(info, c.Args[0]); isC && k == 0 {
+					count = ObjOf(info, as.Lhs[0])
+				}
+			}
+		}
+		return true
+	})
+	if count == nil {
+		r.Unresolved(rule, "Exists reads column 0 of its COUNT(*) query into a variable")
+		return
+	}
+	// positive(e, taken): the branch establishes count > 0 / establishes count <= 0 / says nothing
+	positive := func(e Event) string {
+		if e.Kind != EvBranch || e.Cond == nil {
+			return ""
+		}
+		be, ok := ast.Unparen(e.Cond).(*ast.BinaryExpr)
+		if !ok || ObjOf(info, be.X) != count {
+			return ""
+		}
+		k, isC := ConstInt(info, be.Y)
+		if !isC {
+			return ""
+		}
+		var whenTrue string
+		switch {
+		case be.Op == token.GTR && k == 0, be.Op == token.GEQ && k == 1, be.Op == token.NEQ && k == 0, be.Op == token.EQL && k == 1:
+			whenTrue = "pos"
+		case be.Op == token.LEQ && k == 0, be.Op == token.LSS && k == 1, be.Op == token.EQL && k == 0:
+			whenTrue = "nonpos"
+		default:
+			return "other"
+		}
+		if e.Taken {
+			return whenTrue
+		}
+		if whenTrue == "pos" {
+			return "nonpos"
+		}
+		return "pos"
+	}
+	bad := ""
+	var bpos token.Pos = fn.Decl.Pos()
+	nT, nF := 0, 0
+	for i := range paths {
+		p := &paths[i]
+		if p.Exit != ExitReturn {
+			continue
+		}
+		state := ""
+		for _, e := range p.Ev {
+			if s := positive(e); s == "pos" || s == "nonpos" {
+				state = s
+			} else if s == "other" && state == "" {
+				state = "other"
+			}
+			if e.Kind != EvReturn || e.Deferred || len(e.Rhs) != 2 || ValueKey(info, e.Rhs[1]) != "nil" {
+				continue
+			}
+			switch ValueKey(info, e.Rhs[0]) {
+			case "true":
+				nT++
+				if state != "pos" && bad == "" {
+					bad, bpos = "Exists answers true on a path that did not establish that the counted rows are positive (it established: "+orOK(state, "nothing")+"): a plan that was never created, or was deleted, exists", e.Pos
+				}
+			case "false":
+				nF++
+				if state == "pos" && bad == "" {
+					bad, bpos = "Exists answers false on a path that established a positive row count", e.Pos
+				}
+			default:
+				// `return count > 0, nil`: the comparison itself is the answer
+				cls := positive(Event{Kind: EvBranch, Cond: e.Rhs[0], Taken: true})
+				if cls == "pos" {
+					nT++
+					nF++
+					break
+				}
+				if bad == "" {
+					bad, bpos = "Exists returns "+ExprStr(e.Rhs[0])+", which is not true exactly for a positive row count: a plan that was never created (or was deleted) exists, or a stored one does not", e.Pos
+				}
+			}
+		}
+	}
+	if nT == 0 || nF == 0 {
+		if bad == "" {
+			bad = "Exists does not answer both true and false with a nil error"
+		}
+	}
+	r.Check(rule, "Exists:true-iff-row-count-positive", bpos, bad == "", "%s", orOK(bad, "true ⇔ count > 0"))
 }
